@@ -22,10 +22,14 @@ KEY_LOST = 'C09:created-vs-expireAll:lost-entry'
 KEY_TWO = 'C09:create-vs-get:two-instances'
 
 META = {
-    'extractors': [],
+    'extractors': ['pycache', 'pycachesteps'],
     'technique': ('Lean 4 proof: small-step interleaving semantics of the cache protocol, invariants proved preserved by '
                   'every atomic action, hence for every schedule of any number of threads and any programs; '
-                  'schedule-controlled replay of the real cache.py/main.py under an instrumented lock/dicts'),
+                  'schedule-controlled replay of the real cache.py/main.py under an instrumented lock/dicts; the per-thread '
+                  'programs of the model are DERIVED from the source: the CacheFactory methods are translated from the AST on '
+                  'every run (vlib/extractors/pycache.py), given a small-step semantics (Model/PyCacheSS.lean, proved equal to '
+                  'the big-step reference semantics of C04 for a thread running alone) and interleaved (Model/ConcX.lean); a '
+                  'lock-step simulation with the hand model is proved for all 45 program-counter kinds'),
     'level_text': '',   # filled below
     'level_note': '',
     'rule': ('case = (initial cache state, one program per thread, schedule); exhaustive: every schedule with <= 2 '
@@ -1083,6 +1087,21 @@ META['level_text'] = (
     'C09_referenced_reachable_needs_noExpireAll_FALSE, C09_no_exception_needs_noExpireAll_FALSE, '
     'C09_same_object_needs_fresh_FALSE, C09_no_exception_needs_new_row_FALSE. The model is tied to the code by running '
     'the same schedules on real threads (outcomes, final maps/lock, step-exact access trace).')
-META['level_note'] = ('Trusted: Lean kernel; the hand-written interleaving model Model/Conc.lean (compared step by step with '
-                      'the real cache.py/main.py on every explored schedule); the harness scheduler/instrumentation; '
-                      'CPython atomicity of one builtin-dict operation.')
+META['level_text'] += (
+    ' TRANSLATED SYSTEM (ConcX): the threads run get/put/finishPut/created/expire/expireAll/cull AS TRANSLATED from cache.py on '
+    'this run, under the small-step semantics PyCacheSS (one micro-step = one shared access or one silent statement; the lock is '
+    'data); C09_translated_step_simulates: every Conc action of every one of the 45 pc kinds = one shared access of the '
+    'translated program + <= 64 silent micro-steps, and blocked/finished coincide; C09_translated_schedule_simulates: for every '
+    'schedule; hence C09_translated_conc_inv / _lock_free_at_quiescence / _progress / _one_object_per_id_partial / '
+    '_same_object_partial / _no_exception_but_notfound_partial and the _full_FALSE witnesses hold of the translated system; '
+    'C09_translated_smallstep_run_eq_bigstep: a thread running alone computes what the big-step reference semantics of C04 '
+    'computes (all statement forms); C09_translated_one_access_per_statement (decide on the extracted programs). The translated '
+    'system is also RUN by the driver on every explored schedule and its access trace / outcomes / final state compared with the '
+    'real code (two more correspondence streams).')
+META['level_note'] = ('Trusted: Lean kernel; the reference semantics of the embedding (Model/PyCache.lean big-step, '
+                      'Model/PyCacheSS.lean small-step: which operations are scheduling points, reference counting) and the '
+                      'caller layer of Model/ConcX.lean (SQLObject.get / _SO_finishCreate / CacheSet, guarded by '
+                      'vlib/extractors/pycachesteps.py) - all compared step by step with the real cache.py/main.py on every explored '
+                      'schedule; the translator vlib/extractors/pycache.py; the harness scheduler/instrumentation; CPython atomicity '
+                      'of one builtin-dict operation.  The hand-written Model/Conc.lean is no longer trusted for the per-thread '
+                      'programs: it is proved to move in lock step with the translated system.')
